@@ -188,6 +188,37 @@ CHECKS["C05"] = {
     },
 }
 
+CHECKS["C07"] = {
+    "machine": "alias",
+    "runs": {"quick": 20_000, "thorough": 800_000},
+    "chunk": {"quick": 250, "thorough": 2_000},
+    "budget_s": {"quick": 80, "thorough": 900},
+    "run_timeout": 60,
+    "manifest": {
+        "text": "Seeded search over histories of read-only operations (write_string / write_file to path and file object with formats incl. 'auto'; "
+                "transform by one long-lived copy-mode instance of every shipped middleware class and option set, applied to parsed, damaged, "
+                "name-split and previously transformed libraries, stacks up to depth 3, incl. calls that raise) over an arena of shared objects. "
+                "After every op: every published library and format still has its creation-time deep fingerprint; the output object graph is disjoint "
+                "from the input graph; re-writing the same (library, format) pair gives the same text. Sampling.",
+        "design_ref": "DESIGN.md section 3 / C07",
+        "note": "Trusted: the harness's deep fingerprint and mutable-object walk (simbib/fingerprint.py). Exception instances are not descended into "
+                "(ParsingException.__deepcopy__ returns self by design; the statement lists blocks, fields, field lists, values and metadata). "
+                "The middleware instance's own state is not required to stay unchanged.",
+        "technique": "deterministic simulation: seeded operation histories over an arena of shared mutable objects, aliasing/mutation invariants after every step",
+    },
+    "extra": {
+        "rule": "each run = 1-3 docgen documents (duplicates, name lists, month values; 35% damaged by a storage fault before parsing) parsed under one of 6 stacks, "
+                "then 2-14 (thorough: -24) ops: write (3 targets, 4 formats) or transform by one of 27 long-lived copy-mode instances (30% fed their own latest output); "
+                "distinct = distinct event-log shape; non-trivial = at least one write or transform executed.",
+        "state_measure": "distinct (middleware chain, block classes present in the input, outcome class) triples",
+        "expected_probes": ["instance_reapplied_to_own_output", "transform_raised", "write_with_auto_format", "same_pair_written_again",
+                            "lib_with_duplicate_blocks", "lib_with_failed_blocks", "lib_with_middleware_error_blocks", "lib_with_list_values", "stack_depth_3"],
+        "components": {"real": REAL_COMMON + ["every shipped middleware class", "write_string / write_file", "bibtexparser.writer", "pylatexenc (real)"],
+                       "stub": ["disk for write_file(path): SimDisk", "foreign documents: simbib/docgen.py"]},
+        "assumptions": ["exceptions escaping a transform (type-incompatible pairs) are ops like any other: only the arena invariants are judged"],
+    },
+}
+
 _PURE = ("pure function of its argument: no stream, no state kept between calls, no collaborator that can fail, no schedule or clock; "
          "the only thing a harness could vary is the input, which is input generation / bounded enumeration, not deterministic simulation (DESIGN.md section 1)")
 
